@@ -247,7 +247,7 @@ def install():
 
     def run_tape(tape, stack, cache, additional_flags={}):
         m = Mon.active
-        if m is not None and m.frames and m.frames[-1][0] in ('OP_CALL', 'OP_EVAL'):
+        if m is not None and m.frames and m.frames[-1][0] in ('OP_CALL', 'OP_EVAL', 'OP_TAPROOT', 'OP_MERKLEVAL'):
             # a CALL / EVAL that really enters its body: one more nesting level
             m.depth += 1
             if m.depth > m.max_depth:
